@@ -31,6 +31,8 @@ func init() {
 	conc(&quick, 2, 1, 0, 2, 0)
 	conc(&quick, 2, 0, 0, 3, 0) // a handler behind the idle handler closes the channel while it handles the active event
 	conc(&quick, 2, 1, 0, 3, 0)
+	conc(&quick, 2, 1, 0, 4, 0) // a write passes the handler after inactive
+	conc(&quick, 2, 0, 0, 4, 0) // a read passes the handler after inactive
 	conc(&quick, 2, 0, 0, 0, 3) // the event handler closes the channel and then panics
 	conc(&quick, 2, 1, 0, 0, 3)
 	conc(&quick, 2, 1, 1, 0, 2) // the first write passes the idle handler and is refused further down
